@@ -6,10 +6,12 @@ CONSTANTS
   Keys <- K13
   Vals <- V5
   MaxRows = 5
-  Script = FALSE
-  WithEnv = TRUE
-  Depth = 9
-  GenActs <- ActsTemp
+  Script = TRUE
+  WithEnv = FALSE
+  Depth = 10
+  Weight = 1
+  ErrFrom = 9
+  GenActs <- ActsDirs
 INIT GenInit
 NEXT GenNext
 CONSTRAINT Emit
